@@ -109,6 +109,13 @@ impl Layout {
     }
 }
 
+/// token of the textual rendering
+#[derive(Clone, Debug, PartialEq)]
+pub enum Tok {
+    Num(f64),
+    Sym(String),
+}
+
 /// flat, canonical representation of a value
 #[derive(Clone, Debug, Default, PartialEq)]
 pub struct Flat {
@@ -173,6 +180,9 @@ pub trait Ty: Clone + 'static {
     fn slots(cx: &Ctx, level: usize, prefix: &[Mono], pname: &str, order: u8, parent: Option<usize>, lay: &mut Layout);
     fn build(dims: &[usize], r: &mut Reader) -> Self;
     fn dump(&self, dims: &[usize], out: &mut Flat);
+    /// the documented textual rendering as a token sequence: every present part in the fixed
+    /// order (matrices row by row, as printed), each part / block followed by its symbol
+    fn display_tokens(&self, dims: &[usize], out: &mut Vec<Tok>);
 
     /// nesting levels above the float
     fn levels() -> usize;
@@ -227,6 +237,9 @@ macro_rules! impl_leaf {
             fn dump(&self, _: &[usize], out: &mut Flat) {
                 out.vals.push(self.to64());
             }
+            fn display_tokens(&self, _: &[usize], out: &mut Vec<Tok>) {
+                out.push(Tok::Num(self.to64()));
+            }
         }
     };
 }
@@ -243,7 +256,7 @@ fn sub(p: &str, s: &str) -> String {
 
 /// scalar types: list of (field, generators as list of monomials given by picks relative to `level`, order)
 macro_rules! impl_scalar {
-    ($ty:ident, $name:literal, $ngroups:expr, [$(($field:ident, [$([$($g:expr),*]),*], $ord:expr)),*]) => {
+    ($ty:ident, $name:literal, $ngroups:expr, [$(($field:ident, [$([$($g:expr),*]),*], $ord:expr, $sym:literal)),*]) => {
         impl<T: Ty + DualNum<<T as Ty>::F>> Ty for $ty<T, <T as Ty>::F> {
             type F = T::F;
             fn tname(dims: &[usize]) -> String {
@@ -278,26 +291,33 @@ macro_rules! impl_scalar {
                 self.re.dump(dims, out);
                 $(self.$field.dump(dims, out);)*
             }
+            fn display_tokens(&self, dims: &[usize], out: &mut Vec<Tok>) {
+                self.re.display_tokens(dims, out);
+                $(
+                    self.$field.display_tokens(dims, out);
+                    out.push(Tok::Sym($sym.to_string()));
+                )*
+            }
         }
     };
 }
 
-impl_scalar!(Dual, "Dual", 1, [(eps, [[0]], 1)]);
-impl_scalar!(Dual2, "Dual2", 2, [(v1, [[0], [1]], 1), (v2, [[0, 1]], 2)]);
-impl_scalar!(Dual3, "Dual3", 3, [(v1, [[0], [1], [2]], 1), (v2, [[0, 1], [0, 2], [1, 2]], 2), (v3, [[0, 1, 2]], 3)]);
-impl_scalar!(HyperDual, "HyperDual", 2, [(eps1, [[0]], 1), (eps2, [[1]], 1), (eps1eps2, [[0, 1]], 2)]);
+impl_scalar!(Dual, "Dual", 1, [(eps, [[0]], 1, "ε")]);
+impl_scalar!(Dual2, "Dual2", 2, [(v1, [[0], [1]], 1, "ε1"), (v2, [[0, 1]], 2, "ε1²")]);
+impl_scalar!(Dual3, "Dual3", 3, [(v1, [[0], [1], [2]], 1, "v1"), (v2, [[0, 1], [0, 2], [1, 2]], 2, "v2"), (v3, [[0, 1, 2]], 3, "v3")]);
+impl_scalar!(HyperDual, "HyperDual", 2, [(eps1, [[0]], 1, "ε1"), (eps2, [[1]], 1, "ε2"), (eps1eps2, [[0, 1]], 2, "ε1ε2")]);
 impl_scalar!(
     HyperHyperDual,
     "HyperHyperDual",
     3,
     [
-        (eps1, [[0]], 1),
-        (eps2, [[1]], 1),
-        (eps3, [[2]], 1),
-        (eps1eps2, [[0, 1]], 2),
-        (eps1eps3, [[0, 2]], 2),
-        (eps2eps3, [[1, 2]], 2),
-        (eps1eps2eps3, [[0, 1, 2]], 3)
+        (eps1, [[0]], 1, "ε1"),
+        (eps2, [[1]], 1, "ε2"),
+        (eps3, [[2]], 1, "ε3"),
+        (eps1eps2, [[0, 1]], 2, "ε1ε2"),
+        (eps1eps3, [[0, 2]], 2, "ε1ε3"),
+        (eps2eps3, [[1, 2]], 2, "ε2ε3"),
+        (eps1eps2eps3, [[0, 1, 2]], 3, "ε1ε2ε3")
     ]
 );
 
@@ -363,6 +383,23 @@ fn dump_block<T: Ty + DualNum<T::F>, Rw: Dim, Cl: Dim>(
     }
 }
 
+/// tokens of an optional block: nothing when absent; elements in printed order (row by row), then the symbol
+fn block_tokens<T: Ty + DualNum<T::F>, Rw: Dim, Cl: Dim>(d: &Derivative<T, T::F, Rw, Cl>, dims: &[usize], out: &mut Vec<Tok>, rows: usize, cols: usize, sym: &str)
+where
+    DefaultAllocator: Allocator<Rw, Cl>,
+{
+    if *d == Derivative::none() {
+        return;
+    }
+    let m = d.clone().unwrap_generic(Rw::from_usize(rows), Cl::from_usize(cols));
+    for i in 0..rows {
+        for j in 0..cols {
+            m[(i, j)].display_tokens(dims, out);
+        }
+    }
+    out.push(Tok::Sym(sym.to_string()));
+}
+
 impl<T: Ty + DualNum<<T as Ty>::F>, D: Dim> Ty for DualVec<T, <T as Ty>::F, D>
 where
     DefaultAllocator: Allocator<D> + Allocator<U1, D> + Allocator<D, D>,
@@ -403,6 +440,11 @@ where
         let n = dim_of::<D>(dims, 0);
         self.re.dump(dims, out);
         dump_block(&self.eps, dims, out, n, 1);
+    }
+    fn display_tokens(&self, dims: &[usize], out: &mut Vec<Tok>) {
+        let n = dim_of::<D>(dims, 0);
+        self.re.display_tokens(dims, out);
+        block_tokens(&self.eps, dims, out, n, 1, "ε");
     }
 }
 
@@ -458,6 +500,12 @@ where
         self.re.dump(dims, out);
         dump_block(&self.v1, dims, out, 1, n);
         dump_block(&self.v2, dims, out, n, n);
+    }
+    fn display_tokens(&self, dims: &[usize], out: &mut Vec<Tok>) {
+        let n = dim_of::<D>(dims, 0);
+        self.re.display_tokens(dims, out);
+        block_tokens(&self.v1, dims, out, 1, n, "ε1");
+        block_tokens(&self.v2, dims, out, n, n, "ε1²");
     }
 }
 
@@ -521,5 +569,12 @@ where
         dump_block(&self.eps1, dims, out, m, 1);
         dump_block(&self.eps2, dims, out, 1, n);
         dump_block(&self.eps1eps2, dims, out, m, n);
+    }
+    fn display_tokens(&self, dims: &[usize], out: &mut Vec<Tok>) {
+        let (m, n) = (dim_of::<M>(dims, 0), dim_of::<N>(dims, 1));
+        self.re.display_tokens(dims, out);
+        block_tokens(&self.eps1, dims, out, m, 1, "ε1");
+        block_tokens(&self.eps2, dims, out, 1, n, "ε2");
+        block_tokens(&self.eps1eps2, dims, out, m, n, "ε1ε2");
     }
 }
